@@ -15,7 +15,7 @@ import (
 )
 
 var recNodeCookie = kit.NewRecorder("C15", "node-cookies",
-	"two real nodes: node cookies of A and B, an optional own cookie on B's acceptor and an optional own cookie on A's static route to B, each drawn from {unset, x, y, z}; A connects to B; "+
+	"two real nodes: node cookies of A and B, an optional own cookie on B's acceptor and an optional own cookie on A's static route to B, each drawn from {unset, x, y, z}; then 0-3 run-time changes of B's node cookie or of its acceptor's cookie (including its withdrawal); A connects to B; "+
 		"oracle: the nodes become connected iff the cookie A presents (the route's cookie if set, else A's node cookie) equals the cookie B's endpoint requires (the acceptor's cookie if set, else B's node cookie); when connected each side lists the other and nothing else; "+
 		"non-trivial = an acceptor or route cookie is set; distinct by configuration")
 
@@ -42,21 +42,57 @@ func propNodeCookies(t *rapid.T) {
 			t.Fatalf("AddRoute: %v", err)
 		}
 	}
-	presented, required := na, nb
+	// cookies changed at run time (before anybody connects). An acceptor cookie set at run time is
+	// the endpoint's cookie; one that is withdrawn again ("") hands the endpoint back to the node's
+	// current cookie. What a change of the *node's* cookie means for an acceptor that was started
+	// without a cookie of its own is not specified (the acceptor keeps the cookie it was started
+	// with, new acceptors and outgoing connections use the new one): both are admissible then.
+	var changes []string
+	nodeCookies := map[string]bool{nb: true} // the node cookies an acceptor without an own cookie may require
+	ownSet, withdrawn := acc != "", false
+	for n := rapid.IntRange(0, 3).Draw(t, "changes"); n > 0; n-- {
+		c := rapid.SampledFrom([]string{"", "x", "y", "z"}).Draw(t, "new_cookie")
+		if rapid.Bool().Draw(t, "change_acceptor") {
+			accs, err := b.Network().Acceptors()
+			if err != nil || len(accs) != 1 {
+				t.Fatalf("acceptors of B: %v %v", accs, err)
+			}
+			accs[0].SetCookie(c)
+			acc = c
+			ownSet, withdrawn = c != "", c == ""
+			changes = append(changes, fmt.Sprintf("acceptor=%q", c))
+		} else if c != "" {
+			if err := b.Network().SetCookie(c); err != nil {
+				t.Fatalf("SetCookie: %v", err)
+			}
+			nb = c
+			nodeCookies[c] = true
+			changes = append(changes, fmt.Sprintf("node=%q", c))
+		}
+	}
+	presented := na
 	if rt != "" {
 		presented = rt
 	}
-	if acc != "" {
-		required = acc
+	admissible := map[string]bool{}
+	switch {
+	case ownSet:
+		admissible[acc] = true
+	case withdrawn:
+		admissible[nb] = true
+	default:
+		admissible = nodeCookies
 	}
+	required := fmt.Sprint(admissible)
 	_, cerr := a.Network().GetNode(b.Name())
-	want := presented == required
-	if want && cerr != nil {
-		t.Fatalf("A presents %q, B's endpoint requires %q (node cookies a=%q b=%q, acceptor %q, route %q): connection refused: %v", presented, required, na, nb, acc, rt, cerr)
+	want := admissible[presented]
+	if want && cerr != nil && len(admissible) == 1 {
+		t.Fatalf("A presents %q, B's endpoint requires %s (node cookies a=%q b=%q, acceptor %q, route %q, changes %v): connection refused: %v", presented, required, na, nb, acc, rt, changes, cerr)
 	}
 	if !want && cerr == nil {
-		t.Fatalf("A presents %q, B's endpoint requires %q (node cookies a=%q b=%q, acceptor %q, route %q): the nodes got connected", presented, required, na, nb, acc, rt)
+		t.Fatalf("A presents %q, B's endpoint requires %s (node cookies a=%q b=%q, acceptor %q, route %q, changes %v): the nodes got connected", presented, required, na, nb, acc, rt, changes)
 	}
+	want = cerr == nil
 	if want {
 		kit.WaitUntil(2*time.Second, func() bool { return len(b.Network().Nodes()) == 1 })
 		if ns := b.Network().Nodes(); len(ns) != 1 || ns[0] != a.Name() {
@@ -68,7 +104,7 @@ func propNodeCookies(t *rapid.T) {
 			t.Fatalf("B lists %v although the handshake must have failed", ns)
 		}
 	}
-	recNodeCookie.Case(acc != "" || rt != "", fmt.Sprintf("a=%q b=%q acceptor=%q route=%q", na, nb, acc, rt), fmt.Sprintf("connected=%v", want))
+	recNodeCookie.Case(acc != "" || rt != "" || len(changes) > 0, fmt.Sprintf("a=%q b=%q acceptor=%q route=%q changes=%v", na, nb, acc, rt, changes), fmt.Sprintf("connected=%v", want), fmt.Sprintf("changes=%d", len(changes)))
 }
 
 func TestNodeCookies(t *testing.T) {
